@@ -2,6 +2,7 @@ import GqlVerif.Props.C02
 import GqlVerif.Proofs.C02Response
 import GqlVerif.Proofs.C02CompleteAll
 import GqlVerif.Proofs.C02CompleteFrontends
+import GqlVerif.Proofs.C02MembersModule
 open GqlVerif
 #print axioms C02.wellScoped_iff
 #print axioms C02.selected_types_used
@@ -60,3 +61,18 @@ open GqlVerif
 #print axioms GqlVerif.C02Frontends.schemaWfGen_toSchema
 #print axioms GqlVerif.C02Frontends.schemaWf_fromSdl
 #print axioms GqlVerif.C02Frontends.schemaWf_fromIntro
+-- member distinctness as a predicate on schema, query and options (Proofs/C02Members*.lean)
+#print axioms GqlVerif.C02M.calc_members
+#print axioms GqlVerif.C02M.module_members_eq
+#print axioms GqlVerif.C02M.members_iff
+#print axioms GqlVerif.C02M.members_nodup
+#print axioms GqlVerif.C02M.module_well_scoped_iff_inputs
+#print axioms GqlVerif.C02M.duplicateMembers_nil_iff
+#print axioms GqlVerif.C02M.enumMemberIdents_nodup_iff
+#print axioms GqlVerif.C02M.membersOK_iff
+#print axioms GqlVerif.C02M.snake_collision_witness
+#print axioms GqlVerif.C02M.on_witness
+#print axioms GqlVerif.C02M.enum_collision_witness
+#print axioms GqlVerif.C02M.two_inline_witness
+#print axioms GqlVerif.C02M.fragment_field_witness
+#print axioms GqlVerif.C02M.unknown_variant_witness
